@@ -19,6 +19,9 @@ def run(tier):
     # directed: another producer adds a row between the expander's usage sample and its write lock (buffer >= 10 so that "not full" is still above the 90 % threshold)
     for data in (10, 12, 20):
         scen.append({"strategy": "expand", "data": data, "max": 64, "mininc": 4, "producers": 2, "rows": 0, "samplerace": True})
+    # directed: ONE producer expands the buffer several times while the consumer is busy in the sink: strict emission order afterwards
+    for data, rows in ((2, 20), (4, 30), (4, 60), (8, 50)):
+        scen.append({"strategy": "expand", "data": data, "max": 128, "mininc": 2, "producers": 1, "rows": rows, "stalled": True})
     # free-running
     for i in range(40 if quick else 1500):
         strat = ["expand", "drop", "block"][i % 3]
